@@ -78,9 +78,9 @@ class Gen:
                 fl.update(psd=sym == "psd", sym=sym == "psd", probe=True)
         else:
             kinds = ["dense", "dense", "dense_psd", "dense_sym", "diag", "tridiag", "tri", "perm", "householder",
-                     "kernel", "scalar", "sparse"]
+                     "kernel", "scalar", "sparse", "dense_psd", "dense_singular"]
             if want == "psd":
-                kinds = ["dense_psd", "dense_psd", "diag", "kernel"]
+                kinds = ["dense_psd", "dense_psd", "diag", "kernel", "dense_singular"]
             elif want == "sym":
                 kinds = ["dense_psd", "dense_sym", "diag", "tridiag"]
             kind = g.choice(kinds)
@@ -90,6 +90,9 @@ class Gen:
                 r = {"k": g.choice(["dense", "dense", "lazify"]), "n": n, "dtype": dt, "seed": s, "sym": "gen"}
             elif kind == "dense_psd":
                 r = {"k": "dense", "n": n, "dtype": dt, "seed": s, "sym": "psd"}
+                fl.update(psd=True, sym=True)
+            elif kind == "dense_singular":  # degenerate input: PSD only up to round-off (rank n-1), or the zero matrix
+                r = {"k": "dense", "n": n, "dtype": dt, "seed": s, "sym": g.choice(["psd_singular", "psd_singular", "zero"])}
                 fl.update(psd=True, sym=True)
             elif kind == "dense_sym":
                 r = {"k": "dense", "n": n, "dtype": dt, "seed": s, "sym": "sym"}
@@ -232,10 +235,12 @@ class Gen:
             r = {"k": "concat", "args": [a, b], "axis": ax}
             fl["r"], fl["c"] = (2 * n, n) if ax == 0 else (n, 2 * n)
         elif kind in ("transpose_cls", "adjoint_cls", "T", "H", "neg", "no_dispatch", "I_like", "to"):
+            if kind == "to" and g.random() < 0.5:
+                less = True  # array-free operands travel in the aux data of a copy: the copy shares them with the original
             a, fa = opnd()
             r = {"k": kind, "of": a}
-            if kind == "to" and g.random() < 0.5:
-                r["dtype"] = g.choice(["f4", "f8", "c16"])
+            if kind == "to" and g.random() < 0.6:
+                r["dtype"] = g.choice(["f4", "f8", "c16", "c8"])
             if kind in ("transpose_cls", "adjoint_cls", "T", "H"):
                 fl["psd"], fl["sym"] = fa["psd"], fa["sym"]
             if kind == "I_like":
@@ -676,6 +681,28 @@ ALPHABET = {
     "algobj_hutch_generic": [PRE["G"], {"op": "mkalg", "name": "g_h", "cls": "Hutch", "kw": {"tol": 0.2, "max_iters": 2, "key": 7}},
                              call("diag_hutch", A=S("G"), alg={"algobj": "g_h"})],
     "to_f4": [PRE["D"], mk("a_to", {"k": "to", "of": {"k": "ref", "slot": "D"}, "dtype": "f4"})],
+    "to_f4_kron_l": [mk("kron_l", {"k": "kron", "args": [G2, I2]}),
+                     mk("a_to_kl", {"k": "to", "of": {"k": "ref", "slot": "kron_l"}, "dtype": "f4"})],
+    "to_f4_sum_l": [mk("sum_l", {"k": "sum", "args": [GE2, ID]}),
+                    mk("a_to_sl", {"k": "to", "of": {"k": "ref", "slot": "sum_l"}, "dtype": "f4"})],
+    "to_c8_prod_fft": [mk("Ff", {"k": "fft", "n": N}), mk("pf", {"k": "product", "args": [{"k": "ref", "slot": "Ff"},
+                                                                                      {"k": "ref", "slot": "Ff"}]}),
+                       mk("a_to_pf", {"k": "to", "of": {"k": "ref", "slot": "pf"}, "dtype": "c8"})],
+    "to_f4_nested": [PRE["D"], PRE["I"],
+                     mk("nest", {"k": "transpose_cls", "of": {"k": "product", "args": [
+                         {"k": "ref", "slot": "D"}, {"k": "kron", "args": [{"k": "identity", "n": 1, "dtype": "f8"},
+                                                                          {"k": "ref", "slot": "I"}]}]}}),
+                     mk("a_to_nest", {"k": "to", "of": {"k": "ref", "slot": "nest"}, "dtype": "f4"})],
+    "chol_singular": [mk("Ps", _psd({"k": "dense", "n": N, "dtype": "f8", "seed": 41, "sym": "psd_singular"})),
+                      call("cholesky", A=S("Ps"))],
+    "solve_singular": [mk("Ps", _psd({"k": "dense", "n": N, "dtype": "f8", "seed": 41, "sym": "psd_singular"})),
+                       call("solve", A=S("Ps"), b=B)],
+    "logdet_singular": [mk("Ps", _psd({"k": "dense", "n": N, "dtype": "f8", "seed": 41, "sym": "psd_singular"})),
+                        call("logdet", A=S("Ps"))],
+    "inv_kron_singular": [mk("Ks", _psd({"k": "kron", "args": [
+        _psd({"k": "dense", "n": 2, "dtype": "f8", "seed": 42, "sym": "psd_singular"}), _psd(D2)]})),
+        call("inv", out="R_ks", A=S("Ks"))],
+    "chol_zero": [mk("Pz", _psd({"k": "dense", "n": N, "dtype": "f8", "seed": 43, "sym": "zero"})), call("cholesky", A=S("Pz"))],
     "getitem": [PRE["D"], mk("a_gi", {"k": "getitem", "of": {"k": "ref", "slot": "D"}, "s0": [0, 2], "s1": None})],
     "nodisp": [PRE["P"], mk("a_nd", {"k": "no_dispatch", "of": {"k": "ref", "slot": "P"}})],
     # ---- actions on caller-owned arrays -------------------------------------------------------
@@ -786,7 +813,7 @@ ALPHABET3 = ["mk_dense", "mk_identity", "mk_generic", "mk_probe", "sum_b", "sum_
              "use_inv_cg", "use_inv_cg_X0", "use_sqrt_B", "use_sqrt_X0", "matvec_sum_B", "matvec_sum_X0", "eig_lanczos",
              "cg_reenter", "flatten_sum", "hutch", "import_precond", "algobj_cg_probe", "algobj_cg_block_raise",
              "algobj_cg_dense_of_inv_raise", "rsolve_chol", "rmv_inv_tri", "algobj_hutch_kron", "flatten_inv_cg", "ann_used_inv", "mm3_sl", "rmm3_sl",
-             "mm3_kron", "rmm3_kron"]
+             "mm3_kron", "rmm3_kron", "to_f4_kron_l", "chol_singular"]
 
 
 def history(letters):
@@ -841,9 +868,17 @@ def phase_sweep(run, pool, maxlen):
             elif prev[0] != dig and len(conflicts) < 5:
                 conflicts.append((key, prev, (dig, job["letters"])))
 
-    jobs = ({"id": i, "kind": "program", "program": history(L), "letters": list(L), "want_program": False,
-             "want_results": True, "deadline": 240, "run_seed": "sweep:" + "+".join(L)}
-            for i, L in enumerate(sweep_histories(maxlen, full_pairs=maxlen >= 3, seed=run.seed)))
+    large = large_programs_c18()
+
+    def all_jobs():
+        for j, p in enumerate(large):
+            yield {"id": "L%d" % j, "kind": "program", "program": p["program"], "letters": ["large:" + p["name"]],
+                   "want_program": False, "deadline": 240, "run_seed": "large:" + p["name"]}
+        for i, L in enumerate(sweep_histories(maxlen, full_pairs=maxlen >= 3, seed=run.seed)):
+            yield {"id": i, "kind": "program", "program": history(L), "letters": list(L), "want_program": False,
+                   "want_results": True, "deadline": 240, "run_seed": "sweep:" + "+".join(L)}
+
+    jobs = all_jobs()
     pool.run(jobs, on, stop_flag=lambda: len(run.violations) >= 5 or len(run.harness) >= 5 or len(conflicts) >= 3)
     for key, a, b in conflicts[:2]:
         prog = history(b[1])
@@ -859,7 +894,8 @@ def phase_sweep(run, pool, maxlen):
         "exhaustive_over": ("all 1-letter histories of the full alphabet, all 2-letter histories of the %s alphabet%s"
                             % ("full" if maxlen >= 3 else "reduced", ", all 3-letter histories of the reduced alphabet"
                                if maxlen >= 3 else "")), "distinct_calls_compared_across_histories": len(table),
-        "history_independence_conflicts": len(conflicts), "wall_s": round(time.time() - t, 1)}
+        "large_programs": len(large), "history_independence_conflicts": len(conflicts),
+        "wall_s": round(time.time() - t, 1)}
     run.stats["sweep_histories"] += n[0]
 
 
@@ -1009,3 +1045,49 @@ def phase_diff(run, pool, budget_s):
                                     "history_b": "full history of seed %s" % rs}}}))
     run.phase_info["differential_histories"] = {"pairs": n[0], "calls_compared": int(run.stats.get("diff_calls_compared", 0)),
                                                 "conflicts": len(conflicts), "wall_s": round(time.time() - t, 1)}
+
+
+# =========================================================================================
+# Large programs (C18): sizes at which buffers/workspaces are typically pooled (n = 300, default max_iters of the
+# algorithm classes, i.e. Krylov bases with >= 2**18 entries) on cheap banded/diagonal operators: the same routine is
+# run on two different operators / arrays of equal shape and every result of the first call is still held.
+# =========================================================================================
+def large_programs_c18(n=300):
+    out = []
+    D1 = _psd({"k": "diag", "n": n, "dtype": "f8", "seed": 71})
+    D2 = _psd({"k": "diag", "n": n, "dtype": "f8", "seed": 72})
+    T1 = _sa({"k": "tridiag", "n": n, "dtype": "f8", "seed": 73, "symm": True})
+    T2 = {"k": "tridiag", "n": n, "dtype": "f8", "seed": 74, "symm": False}
+    T3 = _sa({"k": "tridiag", "n": n, "dtype": "f8", "seed": 79, "symm": True})
+    va, vb = arr([n], "f8", 75), arr([n], "f8", 76)
+    ba, bb = arr([n, 2], "f8", 77), arr([n, 2], "f8", 78)
+
+    def prog(name, first, second):
+        steps = [mk("L1", first[0]), mk("L2", second[0]), first[1], second[1],
+                 dict(first[1], repeat_of=2)]
+        for j, s in enumerate(steps):
+            s = steps[j] = dict(s)
+            s["id"] = j
+        out.append({"name": name, "program": {"property": "C18", "run_seed": 0, "rng0": 4, "config": {"large": name},
+                                              "mode": "explicit", "steps": steps}})
+
+    prog("Arnoldi_call", (T2, call("Arnoldi_call", A=S("L1"), v0=va)), (T1, call("Arnoldi_call", A=S("L2"), v0=vb)))
+    prog("arnoldi_default", (T2, call("arnoldi", A=S("L1"), v0=va)), (T1, call("arnoldi", A=S("L2"), v0=vb)))
+    prog("Lanczos_call", (T1, call("Lanczos_call", A=S("L1"), v0=va)), (D2, call("Lanczos_call", A=S("L2"), v0=vb)))
+    prog("eig_arnoldi", (T2, call("eig", A=S("L1"), k=2, which="LM", alg="Arnoldi", v0=va)),
+         (T1, call("eig", A=S("L2"), k=2, which="LM", alg="Arnoldi", v0=vb)))
+    prog("eig_lanczos", (T1, call("eig", A=S("L1"), k=2, which="LM", alg="Lanczos", v0=va)),
+         (T3, call("eig", A=S("L2"), k=2, which="LM", alg="Lanczos", v0=vb)))
+    prog("cg", (D1, call("cg", A=S("L1"), b=ba, max_iters=20)), (D2, call("cg", A=S("L2"), b=bb, max_iters=20)))
+    prog("gmres", (T2, call("gmres", A=S("L1"), b=va, max_iters=20)), (T1, call("gmres", A=S("L2"), b=vb, max_iters=20)))
+    prog("solve_gmres_default", (T2, call("solve", A=S("L1"), b=va, alg="GMRES", akw={"max_iters": 30})),
+         (T1, call("solve", A=S("L2"), b=vb, alg="GMRES", akw={"max_iters": 30})))
+    prog("sqrt_lanczos_apply", (D1, call("unary_apply", A=S("L1"), f="sqrt", alg="Lanczos", akw={"max_iters": 20}, x=va)),
+         (D2, call("unary_apply", A=S("L2"), f="sqrt", alg="Lanczos", akw={"max_iters": 20}, x=vb)))
+    prog("exp_arnoldi_apply", (T2, call("unary_apply", A=S("L1"), f="exp", alg="Arnoldi", akw={"max_iters": 20}, x=va)),
+         (T1, call("unary_apply", A=S("L2"), f="exp", alg="Arnoldi", akw={"max_iters": 20}, x=vb)))
+    prog("diag_exact", (T2, call("diag_exact", A=S("L1"), k=1)), (T1, call("diag_exact", A=S("L2"), k=1)))
+    prog("power_iteration", (T1, call("power_iteration", A=S("L1"), max_iter=20, key=1)),
+         (D2, call("power_iteration", A=S("L2"), max_iter=20, key=1)))
+    prog("nystrom", (D1, call("nystrom", A=S("L1"), rank=4, key=1)), (D2, call("nystrom", A=S("L2"), rank=4, key=1)))
+    return out
